@@ -137,6 +137,29 @@ def handle (m : String) (j : Json) : Except String Json := do
     let vj ← getArr j "versions"
     let vs : List (Option Int) := vj.toList.map (fun x => (x.getInt?).toOption)
     pure (Json.arr ((dialects copies d vs).map intJ).toArray)
+  | "c19.options" =>
+    -- one user_options dict passed to a list of generate() calls; "calls": per recipe the declared options
+    -- [[name, default|null]…]; answer: per call the resolved options [[name, value]…] or null (no definition supplied)
+    let wb ← getBool j "writesBack"
+    let parseDict (x : Json) : Except String Dict := do
+      let a ← x.getArr?
+      a.toList.mapM (fun e => do
+        let p ← e.getArr?
+        let k ← (p[0]?.getD Json.null).getStr?
+        let v ← (p[1]?.getD Json.null).getInt?
+        pure (k, v))
+    let user ← parseDict (← j.getObjVal? "user")
+    let cj ← getArr j "calls"
+    let calls ← cj.toList.mapM (fun c => do
+      let a ← c.getArr?
+      a.toList.mapM (fun e => do
+        let p ← e.getArr?
+        let k ← (p[0]?.getD Json.null).getStr?
+        pure (k, ((p[1]?.getD Json.null).getInt?).toOption)))
+    let outs := runShared (calls.map (generateOptions wb)) user
+    pure (Json.arr (outs.map (fun o => match o with
+      | none => Json.null
+      | some d => Json.arr (d.map (fun e => Json.arr #[Json.str e.1, intJ e.2])).toArray)).toArray)
   | "c19.pyeq" =>
     let a ← parseKey (← j.getObjVal? "a")
     let b ← parseKey (← j.getObjVal? "b")
